@@ -85,7 +85,7 @@ def binary_case(draw):
         else:
             vt = draw(G.expr_of_dim(dim))
         if cls == "number":
-            b = {"x": draw(small), "u": None, "e": None, "dec": False, "plain": True}
+            b = {"x": draw(st.one_of(small, st.sampled_from([1.0, 0.0, -1.0, 1, 0, 2]))), "u": None, "e": None, "dec": False, "plain": True}
         else:
             b = draw(operand(unit_tree=vt, array=isinstance(a["x"], list) and draw(st.booleans())))
         if cls == "decimal":
@@ -116,7 +116,9 @@ def unary_case(draw):
         alts = [R.render(draw(G.expr_of_dim(dim))) for _ in range(2)]
     arg = None
     if fn in ("pow", "power"):
-        arg = draw(st.sampled_from([2, 3, -1, 0.5, 1.5]))
+        arg = draw(st.sampled_from([2, 3, -1, 0.5, 1.5, 1, 1.0, 0, [2, 2], [1, 2], -2]))
+        if isinstance(arg, list):
+            arg = list(arg)
     if fn == "value":
         arg = alts[0]
     return {"kind": "unary", "fn": fn, "a": a, "arg": arg, "follow": draw(follow_ups(alts, [])), "alts": alts}
@@ -295,9 +297,9 @@ def check_unary(case, v):
         if fn == "neg":
             r = -A
         elif fn == "pow":
-            r = A ** arg
+            r = A ** (tuple(arg) if isinstance(arg, list) else arg)
         elif fn == "power":
-            r = np.power(A, arg)
+            r = np.power(A, arg if not isinstance(arg, list) else arg[0] / arg[1])
         elif fn == "value":
             r = A.value(arg)
         else:
